@@ -243,6 +243,42 @@ func ruleStatusUse(c *Ctx) {
 					}
 				})
 			}
+			// ... and it guards nothing else: any other update made only for records stamped Committed leaves out
+			// every earlier record of a multi-record transaction
+			if okb {
+				eq := eqEdges(f, true, func(x, y ssa.Value) bool {
+					kv, ok := constInt(y)
+					return ok && kv == cv && sameValue(x, st)
+				})
+				for _, b := range f.Blocks {
+					if !edgesDominate(f, eq, b) {
+						continue
+					}
+					for _, in := range b.Instrs {
+						other := ""
+						switch x := in.(type) {
+						case *ssa.MapUpdate:
+							if !isFieldLoad(x.Key, "MetaData", "txID") {
+								other = "an update of " + dispPath(x.Map)
+							}
+						case *ssa.Store:
+							switch x.Addr.(type) {
+							case *ssa.FieldAddr, *ssa.IndexAddr:
+								if root, _ := splitPath(x.Addr); root != nil {
+									if _, fresh := root.(*ssa.Alloc); fresh {
+										continue // initialising an object built here
+									}
+								}
+								other = "a store to " + dispPath(x.Addr)
+							}
+						}
+						if other != "" {
+							c.bad(fnName(f), fmt.Sprintf("test #%d of a record's status guards only the committed-id registration", k), c.P.ipos(in),
+								other+" happens only for records whose on-disk status is Committed: only the LAST record of a transaction carries that stamp, so every earlier record of a committed multi-record transaction is left out of it (e.g. its position is missing from the table the next rotation serialises, and the sealed segment's index points the key at offset 0)")
+						}
+					}
+				}
+			}
 			c.check(okb, fnName(f), detail, c.P.ipos(ifi), "",
 				"a record's on-disk status is tested outside the recovery guard: only the last record of a transaction is stamped Committed, so filtering on it rejects every earlier record of a committed multi-record transaction (whether a transaction committed is decided by its id in DB.committedTxIds)")
 		}
